@@ -487,9 +487,10 @@ Proof.
   unfold logical. rewrite XL'. cbn [bind]. unfold Update.append. rewrite map_app. reflexivity.
 Qed.
 
-(* the command: the jobs carry what create_entry builds for the walked nodes that collect_items keeps *)
+(* the command: the jobs carry what create_entry builds for the walked nodes that collect_items keeps (since
+   4cfc8ff5 one per entry name: Update.update_targets) *)
 Definition carries_nodes (kd kt : bool) (walk : list Update.node) (new : list xentry) : Prop :=
-  map abs new = map (Update.fresh kt) (filter (Update.wanted kd) walk).
+  map abs new = map (Update.fresh kt) (Update.update_targets kd walk).
 
 (* one OAppend step of a history of Model/Update.v, on the file: if the logical command succeeds, the in-place
    append turns a file that abstracts to `a` into a file that abstracts to the command's result *)
